@@ -254,6 +254,39 @@ RAN_VALUES = [0, 2 ** 32 - 1, 2 ** 32, -1, 2 ** 40 - 1, 2 ** 31, 1, 2 ** 32 + 1,
 PDU_VALUES = [0, 255, 256, -1, 91, 257, 1, 15, 16, 511, 2 ** 32 + 5, 10000, -256]
 NAS_LENS = [0, 1, 2, 3, 127, 128, 129, 255, 256, 1000, 4095, 5000]
 PRINTABLE = "ABCDEFGHIJKLMNOPQRSTUVWXYZabcdefghijklmnopqrstuvwxyz0123456789 '()+,-./:=?"
+TMSI_CONST = "fe0000000001"
+LABEL = {"amf": "LAmf", "ran": "LRan", "nas": "LNas", "tmsi": "LTmsi", "pdu": "LPdu", "ipv4": "LIpv4", "ids": "LIds", "gnbid": "LGnbId",
+         "plmn": "LPlmn", "bits": "LBits", "name": "LName", "tgnb": "LOther", "tcell": "LOther"}
+
+
+def cz(z):
+    return "(%d)%%Z" % z if z < 0 else "%d%%Z" % z
+
+
+def coq_arg(k, v):
+    if k in ("amf", "ran", "pdu", "bits"):
+        a = "AInt %s" % cz(int(v))
+    elif k in ("nas", "gnbid", "plmn", "name", "tgnb", "tcell"):
+        a = "ABytes %s" % C.cN(bytes.fromhex(v))
+    elif k == "tmsi":
+        a = "ABytes %s" % C.cN(v.encode())
+    elif k == "ipv4":
+        a = "ABytes %s" % C.cN(ip_octets(v))
+    elif k == "ids":
+        a = "AInts None" if v is None else "AInts (Some [%s])" % ";".join(cz(int(x)) for x in v)
+    else:
+        raise ValueError(k)
+    return "(%s, %s)" % (LABEL[k], a)
+
+
+def coq_obs(r):
+    if "panic" in r:
+        return "OPanic"
+    if "err" in r:
+        return "OErr"
+    return "(OHex %s)" % C.cN(bytes.fromhex(r["hex"]))
+
+
 PLMNS = ["02f839", "00f110", "214365", "999999", "000000", "ffffff", "13f184"]
 
 
@@ -285,7 +318,7 @@ def gen_args(rng, fn, i):
             n = NAS_LENS[(i + widx) % len(NAS_LENS)] if i < 2 * len(NAS_LENS) else rng.choice([rng.below(64), rng.below(5001)])
             c[k] = rng.bytes(n).hex()
         elif k == "tmsi":
-            c[k] = "" if not rng.chance(1, 5) else rng.bytes(6).hex()
+            c[k] = "" if not rng.chance(1, 4) else TMSI_CONST      # the two forms the translator probes
         elif k == "ipv4":
             c[k] = rng.choice(["10.203.204.205", "0.0.0.0", "255.255.255.255", "%d.%d.%d.%d" % tuple(rng.below(256) for _ in range(4))])
         elif k == "ids":
@@ -320,9 +353,21 @@ def gen_setup(rng, i, plmn=None):
 class Wrappers(Stream):
     name, sub = "wrappers", "getmsg"
     shard = 40
+    requires = ["Coq.Strings.String", "GoSlice", "AperCommon", "AperEnc", "AperDec", "NgapSchema", "AperCheck", "BuildersT", "TS38413",
+                "Builders", "Builders13"]
+    model_check = "model_check"
+    spec_check = "spec_check"
+    model_out = "model_out"
+
+    def coq_case(self, c, o):
+        calls = []
+        for call, r in zip(c["calls"], o["results"]):
+            msg, keys = WRAPPERS[call["fn"]]
+            calls.append('("%s"%%string, "%s"%%string, [%s], %s)' % (call["fn"], msg, "; ".join(coq_arg(k, call[k]) for k in keys), coq_obs(r)))
+        return "(%s, [%s])" % (C.cN(bytes.fromhex(o["plmn0"])), ";\n  ".join(calls))
 
     def generate(self, rng, tier):
-        per = 24 if tier == "quick" else 400
+        per = 40 if tier == "quick" else 400
         cases = []
         # NG Setup itself: id lengths 22..32, names 1..150, PLMNs; a few PLMNs of the wrong size (refusal)
         for i in range(per + 12):
@@ -348,7 +393,7 @@ class Wrappers(Stream):
         return cases
 
     def go_case(self, c):
-        return {"calls": c["calls"]}
+        return {"calls": c["calls"], "value": False}
 
     def classify(self, c, o):
         fn = c["calls"][-1]["fn"]
@@ -373,10 +418,76 @@ class Wrappers(Stream):
         return None
 
 
+OUTSIDE_CLAUSE = {
+    # builders the emulator never calls whose output departs from TS 38.413: outside the property's criticality clause,
+    # reported as findings and never as violations
+    "BuildHandoverNotify": ("C13:HandoverNotify:UserLocationInformation-criticality",
+                            "BuildHandoverNotify/GetHandoverNotify mark UserLocationInformation (IE 121) 'reject'; TS 38.413 9.2.3.8 assigns 'ignore' (not sent by the emulator)"),
+    "GetHandoverNotify": ("C13:HandoverNotify:UserLocationInformation-criticality",
+                          "BuildHandoverNotify/GetHandoverNotify mark UserLocationInformation (IE 121) 'reject'; TS 38.413 9.2.3.8 assigns 'ignore' (not sent by the emulator)"),
+    "BuildHandoverFailure": ("C13:HandoverFailure:message-criticality",
+                             "BuildHandoverFailure sets the unsuccessful outcome's criticality to 'ignore'; the Handover Resource Allocation procedure is 'reject' (not sent by the emulator)"),
+}
+
+
 class C13(Check):
     pid = "C13"
-    prop_files = []
-    extra_targets = ["Model/AperCheck.vo"]
+    title = "gNB-side NGAP messages carry the caller's values and all mandatory IEs"
+    prop_files = ["Properties/C13.v"]
+    extra_targets = ["Model/Builders13.vo"]          # the stream needs the executable model even when a proof breaks
     streams = [Wrappers()]
-    trusted = ["refamf/perdec.py (independent X.691 aligned PER decoder over the frozen golden schema)"]
-    assumptions = []
+    trusted = ["Coq 8.16.1 kernel incl. vm_compute (no native_compute)", "no axioms (Print Assumptions: closed under the global context)",
+               "translator harness/gen_builders.go (gen-builders): sentinel probing of all 52 Build* functions and 14 Get* wrappers with three sentinel sets per variant, "
+               "merged leaf by leaf (a leaf that differs without being a sentinel makes the translator fail for the emulator's messages); wrappers are probed through "
+               "the library's own ngap.Decoder; regenerated into Gen/Builders.v on every run",
+               "Spec/TS38413.v: procedure codes, classes, criticalities and the clause 9.2 IE tables of the emulator's eight messages (+ HANDOVER NOTIFY) transcribed from memory of "
+               "TS 38.413 Rel-15; vlib/props/C13.py holds a Python copy which Coq compares with the Coq text on every run",
+               "APER codec model of a colleague (Model/AperEnc.v, AperDec.v over Gen/NgapSchema.v), tied to the implementation by C03/C04 and, here, by every case of the stream",
+               "refamf/perdec.py: independent X.691 decoder over the frozen golden schema (direct oracle)",
+               "Model/Builders13.v builder_message / role_of_param: which message a function is meant to build and which parameter carries which identifier (hand-written glue)"]
+    assumptions = ["the arguments of a builder influence its result only as values copied into the PDU (parametricity): checked by three-fold probing on every run and by the "
+                   "random-argument stream, not proved from the Go source",
+                   "fiveGSTmsi is exercised in the two forms \"\" (what the emulator passes) and \"fe0000000001\"; IPv4 arguments are well-formed dotted quads; gNB id octets match "
+                   "the bit length; structured (pointer / struct-slice) arguments of the remaining Build* functions are probed as nil only",
+                   "PLMN 'announced at NG Setup' = the mobilePLMN argument of the last GetNGSetupRequest call of the history; without such a call the package default 02f839 is "
+                   "used by the code and only the model check applies to the PLMN"]
+
+    def regen(self, harness):
+        changed = gen.regen(harness, {"NgapSchema.v"})
+        if any(o == "Builders.v" for _, o, _ in gen.REGISTRY):
+            changed += gen.regen(harness, {"Builders.v"})
+        elif gen.run_translator(harness, "gen-builders", "Builders.v", (C.REPO,)):      # until the REGISTRY line is in vlib/gen.py
+            changed.append("Builders.v")
+        return changed
+
+    def extra(self, harness, build_ok):
+        import re
+        rows = lambda ies: "[" + ";".join("(%d%%Z, %s, %d%%N)" % (i, "true" if p == "M" else "false", c) for i, p, c in ies) + "]"
+        py = "[" + ";\n".join('("%s"%%string, (%d%%Z, %d%%Z, %d%%N), %s)' % (n, t["proc"], t["cls"], t.get("crit", 9), rows(t.get("ies", [])))
+                               for n, t in TS.items()) + "]"
+        txt = ("From Coq Require Import ZArith NArith List String Bool.\nRequire Import AperCommon BuildersT TS38413 Builders Builders13.\nImport ListNotations.\n"
+               "Definition py_table : list (string * (Z * Z * N) * list (Z * bool * N)) := %s.\n"
+               "Definition row_eqb (r : ie_row) (x : Z * bool * N) : bool := let '(i, m, c) := x in (r_id r =? i)%%Z && Bool.eqb (match r_pres r with PM => true | PO => false end) m && (crit_code (r_crit r) =? c)%%N.\n"
+               "Fixpoint rows_eqb (a : list ie_row) (b : list (Z * bool * N)) : bool := match a, b with [], [] => true | x :: a', y :: b' => row_eqb x y && rows_eqb a' b' | _, _ => false end.\n"
+               "Definition entry_ok (e : string * (Z * Z * N) * list (Z * bool * N)) : bool := let '(n, (pc, cl, cr), ies) := e in\n"
+               "  match find_message n messages with Some m => match msg_proc m with Some p => (p_code p =? pc)%%Z && (class_code (m_class m) =? cl)%%Z &&\n"
+               "    match m_ies m with Some rows => mem_str n emulator_messages && (crit_code (p_crit p) =? cr)%%N && rows_eqb rows ies || negb (mem_str n emulator_messages) | None => match ies with [] => true | _ => false end end\n"
+               "  | None => false end | None => false end.\n"
+               "Definition table_bad := Eval vm_compute in map (fun e => fst (fst e)) (filter (fun e => negb (entry_ok e)) py_table).\nPrint table_bad.\n"
+               "Definition deviations := Eval vm_compute in other_deviations.\nPrint deviations.\n") % py
+        rc, out = C.coq_eval(txt)
+        flat = " ".join(out.split())
+        mt = re.search(r"table_bad = (\[[^\]]*\]|nil)", flat)
+        md = re.search(r"deviations = (\[[^\]]*\]|nil)", flat)
+        if rc != 0 or not mt or not md:
+            raise RuntimeError("cannot evaluate the table cross-check: " + out[-1200:])
+        bad = re.findall(r'"([^"]+)"', mt.group(1))
+        if bad:
+            raise RuntimeError("the Python copy of the TS 38.413 tables differs from Spec/TS38413.v for: %s" % ", ".join(bad))
+        devs = re.findall(r'"([^"]+)"', md.group(1))
+        self.cov["deviations_outside_the_criticality_clause"] = devs
+        for d in devs:
+            if d in OUTSIDE_CLAUSE:
+                self.known_finding(*OUTSIDE_CLAUSE[d])
+            else:
+                C.log("C13: %s departs from the transcribed TS 38.413 table (not sent by the emulator: outside the criticality clause)" % d)
